@@ -252,3 +252,113 @@ def lemma_accepted_point_meets_restraints(ctx):
              [h_geo, facts[0], FULFILL_C.spec_fns["known_kinds"](cur)], all_restraints_ok(newp, cur)),
             ("an accepted step has the direction its residue's restriction demands",
              [h_dir, facts[1], direction_pre(unw, last, cur)], direction_ok(unw, last, cur))]
+
+
+# ---- set_distance_restraint: the bounds written for a distance restraint --------------------------------------------------------
+from pyvc.types import TNode as _TN, TList as _TL, slist_get as _sg
+from contracts.rw_types import TREE as _TREE, METAMOL as _MM
+
+LCA = z3.Function("lowest_common_ancestor", *(_TREE.sorts() + [_TN.sort, _TN.sort, _TN.sort]))
+j_ = z3.Int("j_")
+
+
+def on_tree(tree, x):
+    e = tree.fields["edges"]
+    return z3.Exists([j_], z3.And(0 <= j_, j_ < e.n, z3.Or(e.comps[0][j_] == x, e.comps[1][j_] == x)))
+
+
+def path_ok(result, graph, node, start_node):
+    """assumed for get_all_predecessors on a search tree: the tree path from start_node down to node, without repetitions"""
+    return z3.And(result.n >= 2, _sg(result, z3.IntVal(0)) == start_node, _sg(result, result.n - 1) == node,
+                  z3.ForAll([i_, j_], z3.Implies(z3.And(0 <= i_, i_ < j_, j_ < result.n), _sg(result, i_) != _sg(result, j_))),
+                  z3.ForAll([i_], z3.Implies(z3.And(0 <= i_, i_ < result.n), on_tree(graph, _sg(result, i_)))))
+
+
+REG.add(Contract("networkx.algorithms:lowest_common_ancestor", params=dict(G=_TREE, node1=_TN, node2=_TN), result=_TN,
+                 defines={"names the result": "result == LCA(*tree_flat(G), node1, node2)"},
+                 spec_fns=dict(LCA=LCA, tree_flat=lambda g: _TREE.flat(g)), trusted=True, note="networkx"))
+REG.add(Contract("polyply.src.graph_utils:get_all_predecessors", params=dict(graph=_TREE, node=_TN, start_node=_TN), result=_TL(_TN),
+                 ensures={"the tree path from start_node to node, each residue once": "path_ok(result, graph, node, start_node)"},
+                 spec_fns=dict(path_ok=path_ok), trusted=True,
+                 note="walks networkx DiGraph.predecessors of the search tree upwards (assumed: terminates at start_node, which the caller "
+                      "established to be an ancestor)"))
+
+
+def appended_bounds(mol, old_mol, x, ref, upper, lower):
+    """the residue's list of distance restraints = what it was (or empty) + [(ref, upper, lower)]"""
+    nd, od = mol.fields["nodes"], old_mol.fields["nodes"]
+    new = nd.v.unflat([c[x] for c in nd.comps]).fields["distance_restraints"]
+    old = od.v.unflat([c[x] for c in od.comps]).fields["distance_restraints"]
+    n0 = z3.If(old.none, 0, old.val.n)
+    last = _sg(new.val, n0)
+    return z3.And(z3.Not(new.none), new.val.n == n0 + 1, last[0] == ref, ops.real(last[1]) == upper, ops.real(last[2]) == lower,
+                  z3.ForAll([j_], z3.Implies(z3.And(0 <= j_, j_ < n0), z3.And(*[a[j_] == b[j_] for a, b in zip(new.val.comps, old.val.comps)]))))
+
+
+def effective(molecule, target_node, ref_node):
+    """(reference, target) after the swap the function makes when the target is the ancestor"""
+    anc = LCA(*_TREE.flat(molecule.fields["search_tree"]), target_node, ref_node)
+    swap = anc == target_node
+    return z3.If(swap, target_node, ref_node), z3.If(swap, ref_node, target_node), anc
+
+
+def target_bounds(mol, old_mol, target_node, ref_node, distance, avg_step_length, tolerance):
+    """C07: the restrained residue must end within [d - tol, d + tol + one average step] of its reference"""
+    ref, tgt, _anc = effective(old_mol, target_node, ref_node)
+    d, a, t = ops.real(distance), ops.real(avg_step_length), ops.real(tolerance)
+    return appended_bounds(mol, old_mol, tgt, ref, a + d + t, d - t)
+
+
+def on_tree(tree, x):
+    e = tree.fields["edges"]
+    return z3.Exists([j_], z3.And(0 <= j_, j_ < e.n, z3.Or(e.comps[0][j_] == x, e.comps[1][j_] == x)))
+
+
+def bounds_so_far(mol, old_mol, path, gdr, gdt, ref, tgt, distance, avg, tol, upto):
+    """residues at positions 1 .. upto-1 of the path carry their bounds (written with the function's own distance tables); every other
+    residue is as before"""
+    d, a, t = ops.real(distance), ops.real(avg), ops.real(tol)
+    x = _sg(path, i_)
+    r = lambda dct, key: z3.ToReal(dct.comps[0][key])      # noqa: E731
+    upper = z3.If(x == tgt, a + d + t, ops.RMUL(r(gdt, x), a) + d + t)
+    lower = ops.RMUL(ops.RDIV(d, r(gdt, ref)), r(gdr, x)) - t
+    nd, od = mol.fields["nodes"], old_mol.fields["nodes"]
+    pos = gdr.comps[0][x_n]
+    done = z3.And(z3.Select(gdr.dom, x_n), 1 <= pos, pos < upto)
+    return z3.And(
+        z3.ForAll([i_], z3.Implies(z3.And(1 <= i_, i_ < upto), appended_bounds(mol, old_mol, x, ref, upper, lower))),
+        z3.ForAll([x_n], z3.Implies(z3.Not(done), z3.And(*[c[x_n] == o[x_n] for c, o in zip(nd.comps, od.comps)]))),
+        nd.dom == od.dom)
+
+
+def tables_ok(path, gdr, gdt):
+    """what the two dictionary comprehensions give on a path without repetitions: position from the reference, distance to the target"""
+    x = _sg(path, i_)
+    return z3.And(z3.ForAll([i_], z3.Implies(z3.And(0 <= i_, i_ < path.n), z3.And(z3.Select(gdr.dom, x), gdr.comps[0][x] == i_,
+                                                                                z3.Select(gdt.dom, x), gdt.comps[0][x] == path.n - 1 - i_))),
+                  gdr.dom == gdt.dom)
+
+
+x_n = z3.Const("xn_", _TN.sort)
+
+SET_DR = REG.add(Contract(
+    "polyply.src.restraints:set_distance_restraint",
+    params=dict(molecule=_MM, target_node=_TN, ref_node=_TN, distance=TReal, avg_step_length=TReal, tolerance=TReal),
+    requires={"the residues of the search tree are residues of the molecule": "tree_in_molecule(molecule)"},
+    raises=[("OSError", "neither_is_ancestor(molecule, target_node, ref_node)")],
+    ensures={"the restrained residue gets the bounds [distance - tolerance, distance + tolerance + one average step] relative to its reference":
+             "target_bounds(molecule, old(molecule), old(target_node), old(ref_node), distance, avg_step_length, tolerance)"},
+    modifies=["molecule.nodes"],
+    loops={0: Loop({"bounds written so far": "bounds_so_far(molecule, old(molecule), path, graph_distances_ref, graph_distances_target, ref_node, target_node, distance, avg_step_length, tolerance, k)",
+                    "the distance tables": "tables_ok(path, graph_distances_ref, graph_distances_target)",
+                    "frame": "same_tree(molecule, old(molecule))"})},
+    spec_fns=dict(target_bounds=target_bounds, bounds_so_far=bounds_so_far, tables_ok=tables_ok,
+                  muldiv=lambda: z3.ForAll([z3.Real("mx_"), z3.Real("my_")], z3.Implies(z3.Real("my_") != 0, ops.RMUL(ops.RDIV(z3.Real("mx_"), z3.Real("my_")), z3.Real("my_")) == z3.Real("mx_"))),
+                  tree_in_molecule=lambda m: z3.ForAll([x_n], z3.Implies(on_tree(m.fields["search_tree"], x_n), z3.Select(m.fields["nodes"].dom, x_n))),
+                  neither_is_ancestor=lambda m, t, r: z3.And(effective(m, t, r)[2] != t, effective(m, t, r)[2] != r),
+                  same_tree=lambda a, b: z3.And(*[u == v for u, v in zip(_TREE.flat(a.fields["search_tree"]), _TREE.flat(b.fields["search_tree"]))])),
+    axioms={"(x / y) * y = x for y != 0 (the only arithmetic fact about the opaque product / quotient that the proof uses)": "muldiv()"},
+    opaque_nonlinear=True,
+    props=("C07",),
+    note="networkx lowest_common_ancestor and get_all_predecessors are assumed callees; products / quotients of two symbolic reals are "
+         "uninterpreted in this proof (only congruence and the stated cancellation law are used)"))
